@@ -18,6 +18,8 @@ func run(input string) string {
 		return runProv(kv)
 	case "gun":
 		return runGun(kv)
+	case "first":
+		return runFirst(kv)
 	}
 	return "err=badkind"
 }
@@ -36,6 +38,9 @@ func class(input, obs string) string {
 			return "prov/weighted"
 		}
 		return "prov/single"
+	}
+	if c == "first" {
+		return "first/" + kv["mode"] + "/inst" + kv["inst"]
 	}
 	if c == "gun" {
 		k := "gun/inst" + kv["inst"]
@@ -57,6 +62,7 @@ func main() {
 		Timeout: 30 * time.Second,
 		Rule: "kind=prov: random request lists (name(n,sleep), sleep(ms), malformed items, several weighted scenarios, duplicate names) through the real http/scenario provider plugin; " +
 			"kind=gun: random scenarios with chains of captured variables, [next]/[idx]/[last]/[rand] preprocessors, jsonpath/header extractors and assertions shot by the real http/scenario gun (1 and 4 instances) at scripted targets that fail chosen steps (transport, bad JSON, missing key, status), data sources of 0..60 rows; " +
-			"non-trivial = at least two steps or two scenarios",
+			"kind=first: all instances (2..16) make the FIRST [next] lookup of a path on a fresh iterator at the same moment, under a schedule forced through the iterator's own mutex (mode=ctl) or released by a spin barrier (mode=par); " +
+			"non-trivial = at least two steps or two scenarios or two instances",
 	})
 }
